@@ -15,16 +15,27 @@ sys.path.insert(0, VERIF)
 
 ALL = [f"C{k:02d}" for k in range(1, 21)]
 
-TEXT = {
-    "C20": ("Generated search with an integer-arithmetic tiling oracle over chromsizes x width and over every "
-            "layout kind of bin table, with two completely enumerated sub-domains (all single-chromosome "
-            "(L<=40,w<=45) pairs; all valid tables of <=2 chromosomes up to a total length). Exploration, not proof: "
-            "sizes beyond the bounds are sampled only.",
-            "Hypothesis generators + exhaustive small-domain enumeration vs. reference tiling model"),
-    "C19": ("Grammar-based generation of region/URI strings with an exact integer/Decimal oracle, complete "
-            "enumeration of 3-decimal k numerals and 6-decimal M numerals on a stride, a malformed-string grammar "
-            "with one production per refusal, and (thorough) a coverage-guided atheris differential target.",
-            "Hypothesis grammar generation + exhaustive numeral enumeration + atheris differential fuzzing"),
+TECH = {
+    "C01": "Hypothesis generators (bin tables x sparsity patterns x input forms x dtypes x filters x metadata) vs. dense reference model; round-trip oracle",
+    "C02": "Hypothesis RuleBasedStateMachine over producing operations + independent raw-h5py schema validator; run-length encoder vs. itertools.groupby over every block size; >1e6-pixel boundary files",
+    "C03": "Hypothesis-generated matrices with EXHAUSTIVE enumeration of all windows in [0,n]^4 (engines and API) vs. numpy slice of the dense completion; object-reuse histories",
+    "C04": "Hypothesis-generated bin tables with EXHAUSTIVE enumeration of all (start,end) on small chromosomes vs. linear-scan overlap oracle; rename histories",
+    "C05": "Hypothesis record multisets built from bin-edge positions vs. per-record linear-scan oracle, through API, cload pairs, load coo/bg2 and the tabix loader",
+    "C06": "Hypothesis partitions/orders/buffers of a record multiset vs. dict-sum oracle (metamorphic: result independent of partition) + schema validator + temp-dir listing",
+    "C07": "Hypothesis input sets and merge trees vs. per-pixel aggregate oracle (associativity, order independence); incompatible-pair grammar; dtype-limit cases",
+    "C08": "Hypothesis coolers x factors x chunk sizes x workers vs. block-aggregation model; metamorphic chains (k1 then k2 = k1*k2, coarsen/merge commute); URI-reuse histories",
+    "C09": "Hypothesis base sets and target ladders vs. model coarsening (validity predicate for inconsistent bases); CLI resolution-spec grammar incl. boundary genomes",
+    "C10": "Hypothesis matrices x option vectors; validity predicate: derived flatness bound on true row sums + independent three-valued filter reference; CLI blacklist route",
+    "C11": "Differential testing: chunk sizes x harness-owned map (adversarially permuted completion order, real pools) vs. unchunked run and dense IC reference; span-tiling invariant via recording map",
+    "C12": "Hypothesis windows x weight columns x output forms vs. raw * outer(w_rows, w_cols) oracle, NaN-position equality; late-weight histories",
+    "C13": "Fault enumeration: for each Hypothesis-generated chunk stream EVERY (fault kind x chunk x position) and iterator failure before every chunk (+ hard exit in a forked child), oracle = recognition/listing/neighbour digests",
+    "C14": "Hypothesis selectors (range spellings x column subsets) and annotate cases (orders, partial tables) vs. model tables; integer-encoded and many-contig files",
+    "C15": "Hypothesis RuleBasedStateMachine over two files (create a/w, cp, mv, ln hard/soft/external, API and CLI) vs. path->content model with link resolution",
+    "C16": "Hypothesis dump option subsets vs. model rows + library query; dump->load round trip; permuted column layouts vs. C05's record model",
+    "C17": "Hypothesis cell sets (names, per-cell matrices and bin tables) vs. per-cell model; HDF5 object-address identity for the shared bin columns; path-reuse histories",
+    "C18": "Hypothesis chains of injective renaming maps (swaps, cycles, longer names) with checks after every step on the same and a reopened object; deep-digest invariance; enum-header boundary",
+    "C19": "Grammar-based Hypothesis generation with exact integer oracle + exhaustive numeral enumeration + mutation fuzzing against an independent reference classifier + atheris differential target",
+    "C20": "Hypothesis chromsizes x width and bin tables of every layout kind + exhaustive small domains vs. integer tiling oracle; re-creation histories",
 }
 
 NOTE = {
@@ -40,7 +51,9 @@ def main():
         except ImportError:
             na.append({"property_id": pid, "reason": "check not built yet in this round (planned, see DESIGN.md section 5)"})
             continue
-        text, tech = TEXT.get(pid, (getattr(mod, "LEVEL_TEXT", mod.RULE), getattr(mod, "TECHNIQUE", "property-based testing (Hypothesis) against a reference model")))
+        text = ("Generated-input search with an explicit oracle; it explores the stated domain at the stated sizes and does not "
+                "establish absence of violations beyond them. " + mod.RULE)
+        tech = TECH[pid]
         checks.append({
             "property_id": pid,
             "quick_cmd": f"/venv/bin/python -m vfw.check {pid} --tier quick",
